@@ -189,6 +189,39 @@ static Reg r_kernel_par("kernel_par", cmd_kernel_par);
 // oracle, so anything remembered from an earlier call shows; (ii) exact translations: scenes whose coordinates lie on a 2^-10 grid (triangle frame, sizes of order 1) are shifted
 // by 2^30 and 2^40 along every axis - every coordinate difference stays exact, so the barycentric coordinates must not change at
 // all (the squared distance may, by the rounding of the closest point at the far position).
+// kernel_lattice: structured geometry - triangle corners and query points on a small integer lattice (two layers built from the same grid, nodes
+// exactly above corners or edges), placed by the 48 signed axis permutations and exact power-of-two scales / integer offsets.  Dot products that
+// are EXACTLY zero, normals exactly along -x / -y / -z and points exactly on region boundaries are the rule here and never occur in the
+// generic scenes.
+static int cmd_kernel_lattice(const Args& a) {
+    Agg agg;
+    for (long i = a.first; i < a.first + a.cases; i++) {
+        if (!a.mine(i)) continue;
+        Rng g(a.seed, (uint64_t)i, 0x57); Case c(i);
+        int P[3]; { int perm[6][3] = {{0, 1, 2}, {0, 2, 1}, {1, 0, 2}, {1, 2, 0}, {2, 0, 1}, {2, 1, 0}}; int k = g.range(0, 5); for (int d = 0; d < 3; d++) P[d] = perm[k][d]; }
+        const int sg[3] = {g.coin() ? 1 : -1, g.coin() ? 1 : -1, g.coin() ? 1 : -1}; const double sc = std::ldexp(1.0, g.range(-20, 6)); const long off[3] = {g.range(-40, 40), g.range(-40, 40), g.range(-40, 40)};
+        auto place = [&](const long q[3]) { double x[3]; for (int d = 0; d < 3; d++) x[d] = sc * (double)(sg[d] * q[P[d]] + off[d]); return V3(x[0], x[1], x[2]); };
+        // triangle in the plane z = 0 of the lattice frame (or slightly tilted by lattice steps), point on the lattice above / below / in the plane
+        long A[3] = {g.range(-4, 4), g.range(-4, 4), 0}, B[3] = {g.range(-4, 4), g.range(-4, 4), g.coin(0.8) ? 0 : g.range(-1, 1)}, Cq[3] = {g.range(-4, 4), g.range(-4, 4), g.coin(0.8) ? 0 : g.range(-1, 1)}, Q[3] = {g.range(-6, 6), g.range(-6, 6), g.range(-3, 3)};
+        V3 pa = place(A), pb = place(B), pc = place(Cq), pq = place(Q);
+        R area2 = (pb - pa).cross(pc - pa).norm(), diam = std::max({(pa - pb).norm(), (pb - pc).norm(), (pc - pa).norm()});
+        if (!(area2 > 1e-6L * diam * diam)) { c.v = "skip"; agg.add(c); continue; }
+        V3 qs; int reg = -1; R d2s = orc::closest_on_triangle(pq, pa, pb, pc, qs, &reg);
+        auto r = contact_model_abstract::compute_node_triangle_distance(tv(pq), tv(pa), tv(pb), tv(pc)); V3 bary = fv(r.second); V3 q = pa * bary.x + pb * bary.y + pc * bary.z;
+        const std::string rname = reg >= 0 ? REG[reg] : "none"; const R L = diam + (pq - (pa + pb + pc) / 3).norm();
+        agg.bin(std::string("lattice_region:") + rname); c.nontrivial = true; c.sig = hash_combine((uint64_t)i, hash_double((double)d2s));
+        if (!std::isfinite(r.first) || !std::isfinite((double)bary.norm())) c.viol("lattice:not_finite:" + rname, "the kernel returns a non-finite value for lattice-aligned input");
+        else if (!(bary.x >= -1e-12L && bary.y >= -1e-12L && bary.z >= -1e-12L) || !(std::fabs(bary.x + bary.y + bary.z - 1) <= 1e-12L)) c.viol("lattice:barycentric:" + rname, "barycentric coordinates (" + std::to_string((double)bary.x) + ", " + std::to_string((double)bary.y) + ", " + std::to_string((double)bary.z) + ") are not those of a point of the triangle");
+        else if (!((q - qs).norm() <= 1e-9L * L)) c.viol("lattice:closest_point:" + rname, "designated point is " + std::to_string((double)((q - qs).norm() / diam)) + " triangle sizes away from the closest point of the triangle");
+        else if (!(std::fabs((R)r.first - d2s) <= 1e-9L * std::max(d2s, L * L))) c.viol("lattice:d2:" + rname, "squared distance " + std::to_string(r.first) + " instead of " + std::to_string((double)d2s));
+        if (c.v == "viol") c.obs.raw("p", jv3(pq.x, pq.y, pq.z)).raw("a", jv3(pa.x, pa.y, pa.z)).raw("b", jv3(pb.x, pb.y, pb.z)).raw("c", jv3(pc.x, pc.y, pc.z));
+        agg.add(c);
+    }
+    agg.flush(a.shard_i);
+    return 0;
+}
+static Reg r_kernel_lattice("kernel_lattice", cmd_kernel_lattice);
+
 static int cmd_kernel_seq(const Args& a) {
     Agg agg;
     for (long i = a.first; i < a.first + a.cases; i++) {
